@@ -15,7 +15,14 @@ Oracle = (1) reference sum: per atom species, cell volume, charge, mass, Dmass o
          (4) invariant: density of the labile / natural formula = its mass / cell volume;
          (5) FASTA: every text of <= 5 lines over a 7-line alphabet through read_fasta,
              Sequence.load, Sequence.loadall against a ten-line reference splitter; sequence
-             type from the file extension / explicit argument."""
+             type from the file extension / explicit argument;
+         (6) file-name shapes: every path built from <= 3 (4) tokens of {s . / fna frn ...} and one
+             of 21 endings, created for real, through load/loadall spelled absolutely and relative
+             to the working directory; type expected from the last dot of the last component;
+         (7) interleaved loads: every interleaving of the steps of every pair of uses of
+             loadall (a generator) / load / the direct routes, each in a forked interpreter;
+         (8) header collisions: texts of <= 3 (4) records whose headers share the identifier, differ
+             in case, are prefixes of each other."""
 import io
 import itertools
 import os
@@ -33,17 +40,31 @@ META = dict(
           "(aa 25, dna 18, rna 18 codes), grouped by code multiset, every distinct permutation executed; "
           "every single insertion of ' ' and '*' into every such string, every double insertion into "
           "strings of <= 2 codes; every FASTA text of <= 5 lines over {'>a','>b x>y','AC','G','',' ','A*C'}; "
+          "every distinct relative path made of <= N tokens of a token alphabet (name letter, '.', '/', extension "
+          "words) followed by one of 21 endings (the 4 known extensions, none, '.', unknown ones, the extension word "
+          "without its dot, near misses, other case), each created on disk and loaded by load and loadall under its "
+          "absolute and its relative spelling; every interleaving of the steps (call, one next() per record, the "
+          "final next()) of every unordered pair of uses of loadall/load/Sequence+prefix on files of different "
+          "extensions, each interleaving in its own forked interpreter; every text of <= K records over 5 colliding "
+          "headers {'>a','>a z','>A','>ab','>b x>y'} x bodies {none,'AC','G'[,'AC'+'G']}; "
           "non-trivial = distinct undecorated string with >= 2 codes or an ambiguity code, distinct "
-          "decorated string, FASTA text with a header followed by residues"),
+          "decorated string, FASTA text with a header followed by residues, distinct judged path, distinct "
+          "interleaving of two actors, header text with >= 2 records"),
     bound=dict(
         quick="all strings of <= 2 codes (aa) and <= 3 codes (dna, rna) with all their permutations, "
               "space/'*' insertions and the formula-prefix route; all FASTA texts of <= 5 lines through "
               "read_fasta (3 input forms) and load/loadall with extension .faa; extension x explicit "
-              "type (9 x 4) over all texts of <= 2 lines",
+              "type (9 x 4) over all texts of <= 2 lines; file names: <= 3 tokens of {s . / fna frn} x 21 endings "
+              "(2440 distinct paths, 2312 judged) x {absolute, relative} x {load, loadall}; interleavings: 11 actors "
+              "(loadall and load on s.fna s.frn s.faa s.txt, direct routes of the 3 types), 66 pairs, 896 interleavings; "
+              "header collisions: <= 3 records, 3 bodies (3421 texts) through read_fasta, load, loadall as .fna",
         thorough="all strings of <= 4 codes (aa, dna, rna) with all their permutations, space/'*' "
                  "insertions and the formula-prefix route; all FASTA texts of <= 5 lines through read_fasta "
                  "and load/loadall with extensions .faa .fna .frn; extension x explicit type (9 x 4) over "
-                 "all texts of <= 3 lines"),
+                 "all texts of <= 3 lines; file names: <= 4 tokens of {s . / _ fna ffn faa frn} x 21 endings "
+                 "(81664 distinct paths, 79320 judged); interleavings: 18 actors (6 names, explicit types), 171 pairs, "
+                 "3030 interleavings; header collisions: <= 4 records with 3 bodies and <= 3 records with 4 bodies "
+                 "(58657 texts)"),
     assumptions=[
         "per-residue values of the unambiguous codes (formula, cell volume, charge, mass, Dmass) are read "
         "from the single-residue entries of fasta.CODE_TABLES; there is no independent source and the "
@@ -60,14 +81,28 @@ META = dict(
         "a text without header that makes loadall/read_fasta raise is not judged",
         "unknown extensions (.fa .txt none, '.fna.txt') are expected to give the Sequence class default 'aa'; "
         "an explicit type argument wins over the extension",
+        "the file extension of a path is the part of its LAST component from its LAST dot on; dots in "
+        "directories, earlier dots of the name, './', '../', '//' do not take part (mc/ref/fasta.py path_type)",
+        "extensions are matched exactly: '.FNA', '.Frn', '.fna~', '.fna.', '.fnax', 'sfna' (no dot) are unknown "
+        "extensions and give the class default 'aa' - this is how the unchanged library reads them and file names "
+        "are case-sensitive where the check runs; violations of this reading carry their own signatures "
+        "(fasta:type:default-extension:other-case / :known-word-elsewhere)",
+        "a last component that is nothing but dots and a known extension ('.fna', '..frn') is NOT judged: "
+        "os.path.splitext calls it a hidden file without extension, a suffix test calls it a .fna file, the text "
+        "does not decide",
+        "file names are str; os.PathLike / bytes arguments are not in the alphabet (text silent); read_fasta takes "
+        "an open file only, there is no path route into it",
+        "interleaved loads use a different file per actor (two generators over the SAME path are not in the "
+        "alphabet); an actor that fails alone is reported plainly and not paired",
         "not in the alphabet: characters outside the code table, lower case, tabs, '>' alone, "
         "private tables (the module documents that it ignores them)",
     ],
     level_text="every member of the stated finite space was executed on the real classes and compared with "
                "the reference sum / differential edge; nothing is claimed for longer strings except through "
                "the small-scope argument (the sum is a fold over the codes, the longest witness of any "
-               "anchor mechanism has two codes)",
-    level_note="trusted: the hand-written IUPAC tables and the 10-line splitter in mc/ref/fasta.py; "
+               "anchor mechanism has two codes); for file names the claim covers the enumerated paths only - the "
+               "tokens are chosen so that every position relative to the last dot / last separator occurs",
+    level_note="trusted: the hand-written IUPAC tables, the 10-line splitter and the path rule in mc/ref/fasta.py; "
                "the library's own single-residue table entries as base values; Formula.atoms/.mass as observers",
 )
 
@@ -699,6 +734,12 @@ def check_load(E, acc, lines, ext, explicit, route, tmpdir):
     path = os.path.join(tmpdir, fname)
     with open(path, "w") as f:
         f.write(text)
+    return _load_and_judge(E, acc, path, explicit, route, want, want_type, why, case, snip)
+
+
+def _load_and_judge(E, acc, path, explicit, route, want, want_type, why, case, snip, exc_prefix=None):
+    """Sequence.load / Sequence.loadall on an existing file against the reference records read as
+    want_type.  why names the clause that fixes the type (part of the signature)."""
     acc.evaluations += 1
     acc.transitions += 1
     try:
@@ -715,7 +756,7 @@ def check_load(E, acc, lines, ext, explicit, route, tmpdir):
             return True
         if any([blame_sequence(E, acc, want_type, wseq) for _, wseq in want]):
             return False
-        acc.violation("fasta:%s:exception:%s" % (route, type(e).__name__), case,
+        acc.violation("%s:exception:%s" % (exc_prefix or ("fasta:%s" % route), type(e).__name__), case,
                       expected="records %r" % (want if route == "loadall" else want[:1]),
                       observed="%s: %s" % (type(e).__name__, e), standalone=snip)
         return False
@@ -769,6 +810,374 @@ def _shard_fasta(args):
             if sample and len(tup) >= 2 and len(acc.samples) < 2 and len(R.split_fasta(lines)) >= 2 \
                     and fasta_nontrivial(lines):
                 acc.sample(dict(fasta_lines=lines, extensions=list(exts), type_sweep=bool(type_sweep)))
+    finally:
+        shutil.rmtree(tmpdir, ignore_errors=True)
+    return acc
+
+
+# ------------------------------------------------------------------------------------------------
+# file-name shapes: the "typed by the file extension" clause over an alphabet of paths
+# ------------------------------------------------------------------------------------------------
+# A relative path is a string of <= NAME_DEPTH tokens followed by one ending.  The tokens give the
+# shapes (several dots, dots and extension words in directory components, './', '../', '//'), the
+# endings give what the name ends with.  Every distinct string that can name a file is created for
+# real below a scratch directory and handed to Sequence.load and Sequence.loadall twice: spelled
+# as an absolute path and spelled relative to the working directory.  Expected type: R.path_type
+# (last dot of the last component, exact match with the four extensions, otherwise 'aa').
+NAME_LINES = (">a", "ACGT", ">b x", "GA")      # codes of all three tables; the three sums differ
+NAME_TOKENS = dict(quick=("s", ".", "/", "fna", "frn"),
+                   thorough=("s", ".", "/", "_", "fna", "ffn", "faa", "frn"))
+NAME_DEPTH = dict(quick=3, thorough=4)
+NAME_ENDINGS = (".fna", ".ffn", ".faa", ".frn",                 # the four known extensions
+                "", ".", ".fa", ".txt", ".fasta",               # no extension / an unknown one
+                "fna", "frn", "_fna", "-frn",                   # the word without its dot
+                ".fnax", ".xfna", ".fn", ".fna~", ".fna.",      # nearly a known extension
+                ".FNA", ".Frn", ".faA")                         # another case (a different file name)
+
+
+def name_space(tier):
+    out = set()
+    for n in range(NAME_DEPTH[tier] + 1):
+        for tup in itertools.product(NAME_TOKENS[tier], repeat=n):
+            stem = "".join(tup)
+            for e in NAME_ENDINGS:
+                if R.is_file_path(stem + e):
+                    out.add(stem + e)
+    return sorted(out)
+
+
+def _realise(root, rel, text):
+    """Create the file <root>/w/<rel> (and the directories on the way).  Returns the path spelled
+    <root>/w/<rel>, or None if rel cannot be created below root (leaves root, file where a directory
+    is needed)."""
+    work = os.path.join(root, "w")
+    os.makedirs(work)
+    cur = work
+    comps = rel.split("/")
+    for c in comps[:-1]:
+        if c in ("", "."):
+            continue
+        if c == "..":
+            cur = os.path.dirname(cur)
+            if len(cur) < len(root):
+                return None
+            continue
+        cur = os.path.join(cur, c)
+        if not os.path.isdir(cur):
+            if os.path.exists(cur):
+                return None
+            os.mkdir(cur)
+    target = os.path.join(cur, comps[-1])
+    if os.path.isdir(target):
+        return None
+    with open(target, "w") as f:
+        f.write(text)
+    spelled = os.path.join(work, rel)
+    if not (os.path.isfile(spelled) and os.path.samefile(spelled, target)):
+        raise MachineryError("C18 name sweep: %r does not name the file just written (%r)" % (spelled, target))
+    return spelled
+
+
+def _name_snippet(rel, form, route, text, want, want_type):
+    call = "fasta.Sequence.load(p)" if route == "load" else "list(fasta.Sequence.loadall(p))"
+    return ("import os, tempfile, shutil\nfrom periodictable import fasta\n"
+            "root = tempfile.mkdtemp(); work = os.path.join(root, 'w'); os.mkdir(work); os.chdir(work)\n"
+            "rel = %r\ncur = work\n"
+            "for c in rel.split('/')[:-1]:\n"
+            "    cur = os.path.normpath(os.path.join(cur, c)); os.makedirs(cur, exist_ok=True)\n"
+            "open(rel, 'w').write(%r)\n"
+            "p = %s\n"
+            "try:\n    L = %s\n    L = L if isinstance(L, list) else [L]\n"
+            "    for s in L: print(s.name, s.labile_formula, s.cell_volume, s.mass)\n"
+            "finally:\n    os.chdir('/'); shutil.rmtree(root)\n"
+            "# expected: records %r as type %r (extension = last dot of the last path component)\n"
+            % (rel, text, "rel" if form == "rel" else "os.path.join(work, rel)", call,
+               want if route == "loadall" else want[:1], want_type))
+
+
+def check_name(E, acc, rel, tmpdir, only=None):
+    """One relative path through load/loadall, absolute and relative spelling.  only = (form, route)
+    restricts to one call (replay)."""
+    want_type = R.path_type(rel)
+    if want_type is None:
+        acc.count("names_not_judged_only_an_extension")
+        return True
+    why = R.name_class(rel)
+    want = R.split_fasta(NAME_LINES)
+    text = fasta_text(NAME_LINES)
+    root = os.path.join(tmpdir, "k")
+    if "." in root:
+        raise MachineryError("C18 name sweep: scratch directory %r contains a dot" % root)
+    back = os.getcwd()
+    ok = True
+    try:
+        spelled = _realise(root, rel, text)
+        if spelled is None:
+            acc.count("names_not_realisable")
+            return True
+        if R.path_type(spelled) != want_type:
+            raise MachineryError("C18 name sweep: reference types %r and %r differently" % (rel, spelled))
+        os.chdir(os.path.join(root, "w"))
+        for form in ("abs", "rel"):
+            for route in ("load", "loadall"):
+                if only is not None and (form, route) != tuple(only):
+                    continue
+                path = spelled if form == "abs" else rel
+                case = dict(kind="name", name=rel, form=form, route=route)
+                snip = _name_snippet(rel, form, route, text, want, want_type)
+                ok = _load_and_judge(E, acc, path, None, route, want, want_type, why, case, snip,
+                                     exc_prefix="fasta:name:%s" % why) and ok
+    finally:
+        os.chdir(back)
+        shutil.rmtree(root, ignore_errors=True)
+    if ok:
+        acc.outcome("name:%s:%s" % (why, want_type))
+    return ok
+
+
+def _shard_names(args):
+    names, seed, sample = args
+    E = env()
+    acc = Acc()
+    tmpdir = tempfile.mkdtemp(prefix="verif-c18-")
+    try:
+        for rel in rotate(names, seed):
+            acc.states += 1
+            acc.nontrivial += 1           # every distinct path is a distinct case of the clause
+            acc.count("file_names")
+            check_name(E, acc, rel, tmpdir)
+        if sample:
+            pick = [n for n in names if n.count(".") >= 2 or "/" in n]
+            acc.sample(dict(file_names=pick[:4] + pick[-4:], text=list(NAME_LINES), routes=["load", "loadall"],
+                            spellings=["absolute", "relative to the working directory"]))
+    finally:
+        shutil.rmtree(tmpdir, ignore_errors=True)
+    return acc
+
+
+# ------------------------------------------------------------------------------------------------
+# interleaved loads: the type of a record may not depend on what else is being loaded
+# ------------------------------------------------------------------------------------------------
+# An actor is one use of a route.  loadall is a generator: its steps are "call", one next() per
+# record and the final next() that must stop; load and the direct routes have one step.  For every
+# unordered pair of actors every interleaving of their steps runs in its own forked interpreter;
+# every record is judged the moment it is produced.  An actor that fails alone is reported with
+# its plain signature and not paired.
+IL_TEXTS = ((">a", "ACGT", ">b x", "GA"), (">c", "TTG", ">d y", "C", "A"))
+IL_CODES = "ACGT"
+
+
+def il_actors(tier):
+    names = ("s.fna", "s.frn", "s.faa", "s.txt") if tier == "quick" else \
+        ("s.fna", "s.frn", "s.faa", "s.txt", "s.ffn", "s")
+    acts = [("loadall", n, None) for n in names] + [("load", n, None) for n in names]
+    if tier != "quick":
+        acts += [("loadall", "s.fna", "rna"), ("loadall", "s.txt", "dna"), ("load", "s.frn", "aa")]
+    acts += [("direct", t, None) for t in TYPES]
+    return acts
+
+
+def il_steps(actor, slot):
+    return len(R.split_fasta(IL_TEXTS[slot])) + 2 if actor[0] == "loadall" else 1
+
+
+def il_orders(actors):
+    """All interleavings of the steps of one or two actors (tuples of slot numbers)."""
+    if len(actors) == 1:
+        return [(0,) * il_steps(actors[0], 0)]
+    na, nb = il_steps(actors[0], 0), il_steps(actors[1], 1)
+    out = []
+    for pos in itertools.combinations(range(na + nb), na):
+        order = [1] * (na + nb)
+        for i in pos:
+            order[i] = 0
+        out.append(tuple(order))
+    return out
+
+
+def _il_snippet(actors, order):
+    lines = ["import os, tempfile, shutil", "import periodictable", "from periodictable import fasta",
+             "root = tempfile.mkdtemp()",
+             "def show(s): print(s.name, s.labile_formula, s.cell_volume, s.mass)"]
+    for i, (route, arg, explicit) in enumerate(actors):
+        if route != "direct":
+            lines.append("os.mkdir(os.path.join(root, 'd%d')); p%d = os.path.join(root, 'd%d', %r); "
+                         "open(p%d, 'w').write(%r)" % (i, i, i, arg, i, fasta_text(IL_TEXTS[i])))
+    started = set()
+    for who in order:
+        route, arg, explicit = actors[who]
+        kw = "" if explicit is None else ", type=%r" % explicit
+        if route == "direct":
+            lines.append("show(fasta.Sequence('x', %r, type=%r)); print(periodictable.formula(%r).atoms)"
+                         % (IL_CODES, arg, "%s:%s" % (arg, IL_CODES)))
+        elif route == "load":
+            lines.append("show(fasta.Sequence.load(p%d%s))" % (who, kw))
+        elif who not in started:
+            started.add(who)
+            lines.append("g%d = fasta.Sequence.loadall(p%d%s)" % (who, who, kw))
+        else:
+            lines.append("s = next(g%d, None); show(s) if s is not None else print('g%d stops')" % (who, who))
+    lines.append("shutil.rmtree(root)")
+    lines.append("# every record must have the values of its own file's type: %s"
+                 % ", ".join("%s -> %s" % (a[1], R.path_type(a[1], a[2])) for a in actors if a[0] != "direct"))
+    return "\n".join(lines) + "\n"
+
+
+def il_run(E, actors, order, tmpdir):
+    """Execute one interleaving (inside a forked child).  Returns an Acc with plain signatures."""
+    acc = Acc()
+    case = dict(kind="interleave", actors=[list(a) for a in actors], order=list(order))
+    snip = _il_snippet(actors, order)
+    slots = []
+    for i, (route, arg, explicit) in enumerate(actors):
+        if route == "direct":
+            slots.append(None)
+            continue
+        d = os.path.join(tmpdir, "d%d" % i)
+        if not os.path.isdir(d):
+            os.makedirs(d)
+        path = os.path.join(d, arg)
+        with open(path, "w") as f:
+            f.write(fasta_text(IL_TEXTS[i]))
+        slots.append(dict(path=path, want=R.split_fasta(IL_TEXTS[i]), type=R.path_type(path, explicit),
+                          why="explicit" if explicit is not None else R.name_class(arg), gen=None, k=0))
+    for who in order:
+        route, arg, explicit = actors[who]
+        st = slots[who]
+        acc.transitions += 1
+        if route == "direct":
+            res = check_plain(E, acc, arg, IL_CODES)
+            if res is None or not check_prefix(E, acc, arg, IL_CODES, res[1]):
+                return acc
+            continue
+        if route == "load":
+            if not _load_and_judge(E, acc, st["path"], explicit, "load", st["want"], st["type"], st["why"],
+                                   case, snip):
+                return acc
+            acc.transitions -= 1          # counted by _load_and_judge
+            continue
+        k, st["k"] = st["k"], st["k"] + 1
+        acc.evaluations += 1
+        try:
+            if k == 0:
+                st["gen"] = iter(E.fasta.Sequence.loadall(st["path"], type=explicit) if explicit is not None
+                                 else E.fasta.Sequence.loadall(st["path"]))      # any iterable will do
+                continue
+            try:
+                rec = next(st["gen"])
+            except StopIteration:
+                rec = None
+        except Exception as e:
+            if any([blame_sequence(E, acc, st["type"], wseq) for _, wseq in st["want"]]):
+                return acc
+            acc.violation("fasta:loadall:exception:%s" % type(e).__name__, case, expected="records %r" % st["want"],
+                          observed="%s: %s" % (type(e).__name__, e), standalone=snip)
+            return acc
+        if (rec is None) != (k == len(st["want"]) + 1):
+            acc.violation("fasta:loadall:records", case, expected="%d record(s) %r" % (len(st["want"]), st["want"]),
+                          observed="no record at step %d" % k if rec is None else "one more record %r"
+                          % getattr(rec, "name", rec), standalone=snip)
+            return acc
+        if rec is not None:
+            head, wseq = st["want"][k - 1]
+            if not _judge_loaded(E, acc, rec, head, wseq, st["type"], "loadall", st["why"], case, snip):
+                return acc
+    acc.outcome("interleave:%s" % "+".join(sorted(a[0] for a in actors)))
+    return acc
+
+
+def il_fork(E, actors, order, tmpdir):
+    from ..histmc import in_fork
+    return in_fork(lambda: il_run(E, actors, order, tmpdir))
+
+
+def il_merge(acc, sub, prefix, actors=None, order=None):
+    """Merge the result of one forked interleaving; with a prefix the violations are attached to
+    the interleaving (signature prefix, case = the interleaving itself, so that it replays as one)."""
+    viol, sub.viol, sub.vcount = sub.viol, {}, 0
+    acc.merge(sub)
+    for sig, rec in viol.items():
+        case, snip = rec["case"], rec.get("standalone")
+        if prefix:
+            case = dict(kind="interleave", actors=[list(a) for a in actors], order=list(order))
+            snip = _il_snippet(actors, order)
+        acc.violation(prefix + sig, case, expected=rec["expected"], observed=rec["observed"], standalone=snip)
+
+
+def _shard_interleave(args):
+    pairs, seed, sample = args
+    E = env()
+    acc = Acc()
+    tmpdir = tempfile.mkdtemp(prefix="verif-c18-")
+    solo = {}
+    try:
+        for a, b in rotate(pairs, seed):
+            good = True
+            for x in (a, b):
+                if x not in solo:
+                    sub = il_fork(E, (x,), il_orders((x,))[0], tmpdir)
+                    solo[x] = not sub.viol
+                    acc.count("interleave_solo_runs")
+                    il_merge(acc, sub, "")
+                good = good and solo[x]
+            if not good:
+                acc.count("interleave_pairs_skipped_actor_fails_alone")
+                continue
+            for order in il_orders((a, b)):
+                acc.states += 1
+                acc.nontrivial += 1
+                acc.count("interleavings")
+                il_merge(acc, il_fork(E, (a, b), order, tmpdir), "interleaved:", (a, b), order)
+            if sample and a[0] == b[0] == "loadall" and a != b and len(acc.samples) < 1:
+                acc.sample(dict(kind="interleave", actors=[list(a), list(b)],
+                                orders=[list(o) for o in il_orders((a, b))[:3]], texts=[list(t) for t in IL_TEXTS]))
+    finally:
+        shutil.rmtree(tmpdir, ignore_errors=True)
+    return acc
+
+
+# ------------------------------------------------------------------------------------------------
+# header collisions: records that differ only in (part of) their header, or not at all
+# ------------------------------------------------------------------------------------------------
+# Same identifier with and without description, an identifier that is a prefix of another, the same
+# identifier in another case, a description with '>' inside; bodies: none, 'AC', 'G' (and both).
+HDR_HEADS = (">a", ">a z", ">A", ">ab", ">b x>y")
+HDR_BODIES = (((), ("AC",), ("G",)), ((), ("AC",), ("G",), ("AC", "G")))
+
+
+def header_texts(maxrec, bodies):
+    recs = [(h, b) for h in HDR_HEADS for b in bodies]
+    out = []
+    for n in range(1, maxrec + 1):
+        for tup in itertools.product(recs, repeat=n):
+            lines = []
+            for h, b in tup:
+                lines.append(h)
+                lines.extend(b)
+            if len(lines) <= 5 and all(l in FASTA_LINES for l in lines):
+                continue                  # member of the general text enumeration
+            out.append(tuple(lines))
+    return out
+
+
+def _shard_headers(args):
+    texts, seed, sample = args
+    E = env()
+    acc = Acc()
+    tmpdir = tempfile.mkdtemp(prefix="verif-c18-")
+    try:
+        for lines in rotate(texts, seed):
+            lines = list(lines)
+            acc.states += 1
+            acc.count("header_texts")
+            if len(R.split_fasta(lines)) >= 2:
+                acc.nontrivial += 1
+            if not check_read_fasta(E, acc, lines, "stringio", True, tmpdir):
+                continue
+            check_load(E, acc, lines, ".fna", None, "load", tmpdir)
+            check_load(E, acc, lines, ".fna", None, "loadall", tmpdir)
+        if sample and texts:
+            acc.sample(dict(header_texts=[list(t) for t in texts[-2:]], headers=list(HDR_HEADS)))
     finally:
         shutil.rmtree(tmpdir, ignore_errors=True)
     return acc
@@ -866,6 +1275,23 @@ def run(ctx):
         jobs.append((_shard_fasta, (part, fasta_exts, False, ctx.seed, i == 0)))
     for i, part in enumerate(chunks(fasta_files(sweep_lines), n_sweep)):
         jobs.append((_shard_fasta, (part, EXTENSIONS, True, ctx.seed, i == 0)))
+    # file-name shapes, interleaved loads, header collisions
+    tier = "quick" if ctx.quick else "thorough"
+    names = name_space(tier)
+    for i, part in enumerate(chunks(names, 8 if ctx.quick else 48)):
+        jobs.append((_shard_names, (part, ctx.seed, i == 0)))
+    actors = il_actors(tier)
+    pairs = [(a, b) for i, a in enumerate(actors) for b in actors[i:]]
+    for i, part in enumerate(chunks(pairs, 8 if ctx.quick else 24)):
+        jobs.append((_shard_interleave, (part, ctx.seed, i == 0)))
+    htexts = header_texts(3, HDR_BODIES[0]) if ctx.quick else \
+        header_texts(4, HDR_BODIES[0]) + header_texts(3, HDR_BODIES[1])
+    htexts = sorted(set(htexts))
+    for i, part in enumerate(chunks(htexts, 6 if ctx.quick else 32)):
+        jobs.append((_shard_headers, (part, ctx.seed, i == 0)))
+    acc.info["file_name_space"] = len(names)
+    acc.info["interleave_actor_pairs"] = len(pairs)
+    acc.info["header_text_space"] = len(htexts)
     hist_depth = 3 if ctx.quick else 4
     for t in TYPES:
         for hs in HIST_STRINGS:
@@ -917,11 +1343,18 @@ def replay(ctx, case, signature=None):
         sub = in_fork(work)
         for sig, rec in sub.viol.items():
             acc.violation("prefix-history:" + sig, case, expected=rec["expected"], observed=rec["observed"])
-    elif kind in ("read_fasta", "load"):
+    elif kind in ("read_fasta", "load", "name", "interleave"):
         tmpdir = tempfile.mkdtemp(prefix="verif-c18-")
         try:
             if kind == "read_fasta":
                 check_read_fasta(E, acc, case["lines"], case["source"], case["final_newline"], tmpdir)
+            elif kind == "name":
+                check_name(E, acc, case["name"], tmpdir, only=(case["form"], case["route"]))
+            elif kind == "interleave":
+                actors = tuple((a[0], a[1], a[2]) for a in case["actors"])
+                order = tuple(case["order"])
+                il_merge(acc, il_fork(E, actors, order, tmpdir), "interleaved:" if len(actors) > 1 else "",
+                         actors, order)
             else:
                 check_load(E, acc, case["lines"], case["ext"], case["type"], case["route"], tmpdir)
         finally:
